@@ -79,6 +79,17 @@ CLAIMED['C07'] = dict(
    note='Trusted: clang AST, sa/valueflow.py, spec/roles.json (semantic slots from the repository documentation). Not decided: equality of the query results as sets after arbitrary histories. Four genuine defects repaired (children/descendants swapped, two missing cycle guards, stale successor).',
    ref='DESIGN.md 4 C07')
 
+CLAIMED['C08'] = dict(
+   technique='value-flow interpretation of the membership operations (id kinds of bound values, event order) plus a reference-graph / trigger analysis of the DDL of every schema version',
+   text='Decides the id-space and cleanup clauses: K1 every value bound to a membership column (CrateTrackList, PlaylistEntity) has the id kind of that column - crate handle id, track argument, entity id read from the table - for every add / remove / clear / listing operation of both implementations (the confusion of track id and entity id is invisible to tests whose ids coincide); K2 for every schema version, each membership relation referring to a deleted track or crate is cleaned by a trigger of that DDL, by ON DELETE CASCADE with foreign keys switched on somewhere, or by an explicit DELETE; K3 a membership INSERT is preceded by a delete or lookup on the same crate and track; K4 every 2.x DDL relinks the entity chain on delete.',
+   note='Trusted: clang AST, valueflow, SQL reader / catalog model. Not decided: membership as a set after arbitrary interleavings. One genuine defect repaired (entity removal keyed by the wrong id column); six known findings, one root cause (foreign keys are never switched on, so the cascades the code relies on do not happen).',
+   ref='DESIGN.md 4 C08')
+CLAIMED['C09'] = dict(
+   technique='trigger analysis of every 2.x DDL, value-flow interpretation of the move / create-after / add_back operations, structural check of the chain walkers, path analysis of transaction scopes',
+   text='Claimed narrowly - four necessary conditions, not order preservation itself: P1 a changed parentListId comes with a re-assigned nextListId and a successor taken from another row is first checked to be a sibling; P2 every supported 2.x DDL contains the splice triggers (before/after INSERT and after DELETE on Playlist rewriting nextListId and deleting children, before DELETE on PlaylistEntity rewriting nextEntityId); P3 both chain walkers start from the sentinel the writers store and test the tail lookup before use (throwing), add_back stores the new entry as tail and relinks the previous tail; P4 the multi-statement relinking operations run inside one committed transaction.',
+   note='Not decided (and said so): that listings return every item exactly once in order after arbitrary histories - that needs SQLite trigger / UPDATE semantics over histories, i.e. symbolic execution of SQL, a different family. Two genuine defects repaired (stale successor on move; end() dereference in the walkers).',
+   ref='DESIGN.md 4 C09')
+
 NOT_APPLICABLE = {
  'C19': 'numerical result of integer/floating arithmetic over all inputs (ceiling division, quantisation, minimality, monotonicity): no structural clause beyond the division guard, which C15-U6 covers; a sound decision needs an arithmetic solver or proof (different family)',
  'C20': 'floating-point numerical behaviour of beat-grid extrapolation (bracketing, tempo preservation, idempotence up to rounding); only the iterator arithmetic is shape-visible and is covered by C15-U3',
